@@ -626,6 +626,7 @@ pub fn check_c08(server: &Server, lane: &Lane, t: &TransferSpec, v: &TransferVie
     // walk the replies the server produced
     let mut assembled: Vec<u8> = Vec::new();
     let mut finished = false;
+    let mut served_size: Option<usize> = None;
     for k in 0..n_dl {
         let a = &log[v.arrivals[dl_first + k]];
         if k > 0 {
@@ -655,17 +656,32 @@ pub fn check_c08(server: &Server, lane: &Lane, t: &TransferSpec, v: &TransferVie
                 out.push(Violation::new("C08", "options", format!("block {} does not repeat application option {} unchanged ({})", k, num, ctx)));
             }
         }
+        // the block size the client asked for in this request (early
+        // negotiation in the first one, possibly a smaller one later) is the
+        // block size of the transfer from there on: nothing larger is served
+        let asked = a.block2.filter(|b| b.2 <= 6).map(|b| szx_size(b.2)).filter(|cs| k == 0 || served_size.map_or(true, |ss| *cs <= ss));
         match block_opt(&p, CoapOption::Block2) {
             None => {
                 if k != 0 {
                     out.push(Violation::new("C08", "offset", format!("follow-up reply {} has no Block2 option ({})", k, ctx)));
                     return true;
                 }
+                if let Some(cs) = asked {
+                    if p.payload.len() > cs {
+                        out.push(Violation::new("C08", "block-size", format!("the client asked for {}-byte blocks in its first request and was sent {} bytes in one unfragmented reply ({})", cs, p.payload.len(), ctx)).with_sig("asked-size"));
+                    }
+                }
                 assembled.extend_from_slice(&p.payload);
                 finished = true;
             }
             Some((num, more, sx)) => {
                 let size = szx_size(sx);
+                if let Some(cs) = asked {
+                    if size > cs {
+                        out.push(Violation::new("C08", "block-size", format!("the client asked for {}-byte blocks in request {} and was served a block of size {} ({})", cs, k, size, ctx)).with_sig("asked-size"));
+                    }
+                }
+                served_size = Some(size);
                 if num as usize * size != assembled.len() {
                     out.push(Violation::new("C08", "offset", format!("block {} of size {} delivered at offset {} ({})", num, size, assembled.len(), ctx)));
                 }
